@@ -28,6 +28,9 @@ THEOREMS = [
     "PyTrie.Props.NonVacuity.c06_pruneInv",
     "PyTrie.Props.NonVacuity.c06_pruneInv_mid",
     "PyTrie.Props.NonVacuity.hist_reach",
+    "PyTrie.Props.Raw.pruned_db_complete",
+    "PyTrie.Props.Raw.prune_op_keeps_complete",
+    "PyTrie.Props.Raw.pruned_db_get",
 ]
 RULE = ("pruning tries started on an empty database and modified only through their own API: histories of "
         "set/delete/set-to-empty/no-op updates and squash_changes blocks (committed and aborted) over prefix-sharing "
